@@ -10,6 +10,7 @@ expr  := ["num", "3/4"] | ["var", "x"] | ["sym", "p"]
        | ["add", e, e] | ["sub", e, e] | ["mul", e, e] | ["neg", e]
        | ["pow", e, k]            (k non-negative int)
        | ["div", e, "3/4"]         (division by a constant)
+       | ["raw", "2**3**2", "512"] (a constant written as source text with its value under Python precedence; C19)
 cond  := ["true"] | ["false"] | ["cmp", e, cop, e] | ["not", c] | ["and", c, c] | ["or", c, c]
 rhs   := ["expr", e] | ["choice", [e...], [prob e...]]   (len(probs) == len(es) or len(es)-1)
        | ["draw", "Normal", [e...]] | ["func", "Sin", argname-or-number-string]
@@ -96,10 +97,14 @@ def _re(e, style, ctx):
         return _extra(t, style)
     if k in ("var", "sym"):
         return _extra(e[1], style)
+    if k == "raw":
+        return f"({e[1]})" if ctx >= 1 else e[1]
     if k == "neg":
-        inner = _re(e[1], style, 3)
-        t = f"-{inner}"
-        return f"({t})" if ctx >= 1 else t
+        # the grammar only knows a sign attached to an atom ("-x"), not "-(...)"
+        if e[1][0] in ("var", "sym"):
+            t = f"-{e[1][1]}"
+            return f"({t})" if ctx >= 1 else t
+        return _re(["mul", ["num", "-1"], e[1]], style, ctx)
     if k == "pow":
         base = _re(e[1], style, 5)
         t = f"{base}**{int(e[2])}"
@@ -322,6 +327,8 @@ def program_vars(p):
 def subst_syms_expr(e, env):
     """replace ["sym", name] by numbers according to env {name: Fraction}; unknown syms stay"""
     k = e[0]
+    if k == "raw":
+        return e
     if k == "sym":
         return num(env[e[1]]) if e[1] in env else e
     if k in ("num", "var"):
